@@ -302,6 +302,16 @@ impl<'a> Gen<'a> {
     }
 
     pub fn op_own(&mut self, contract: &str) {
+        // half of the time a well-formed hand-over by whoever owns the contract now (so that later privileged
+        // operations are exercised under a changed owner), otherwise arbitrary attempts
+        let own = self.run.h.ownership(contract);
+        let cur_owner = own.split('/').next().unwrap_or("-").to_string();
+        if self.r.chance(1, 2) && USERS.contains(&cur_owner.as_str()) {
+            let to = ["u1", "u2", "owner"][self.r.below(3) as usize];
+            self.emit(format!("tx {} 0 {} own transfer {} -", cur_owner, contract, to));
+            if self.r.chance(2, 3) { self.emit(format!("tx {} 0 {} own accept", to, contract)); }
+            return;
+        }
         let sender = match self.r.below(4) { 0 => "owner", 1 => "u1", 2 => "u2", _ => pick_user(self.r) };
         let now = self.run.h.w.now_ns();
         let act = match self.r.below(5) {
